@@ -251,6 +251,152 @@ fn oracle_shape(t: &Tree) -> Option<Shape> {
     Some(sh)
 }
 
+
+// ---- deterministic boundary family (identical for every seed; runs before the random stream) --------
+/// consistent yields: every child c is yielded to (c % 3) times, and yields to its parent (c % 3) times
+fn bt(root: IH, depth: u64, rootch: &[u64], subs: &[(u64, &[u64])]) -> Tree {
+    let mk = |me_py: u64, ch: &[u64]| {
+        let mut seen = BTreeSet::new();
+        Intent {
+            children: ch.to_vec(),
+            parent_yields: me_py,
+            child_yields: ch.iter().filter(|c| seen.insert(**c)).map(|c| (*c, *c % 3)).collect(),
+        }
+    };
+    Tree {
+        root_hash: root.clone(),
+        root: mk(if matches!(root, IH::Sub(_)) { 1 } else { 0 }, rootch),
+        subs: subs.iter().map(|(h, ch)| (*h, mk(*h % 3, ch))).collect(),
+        max_depth: depth,
+    }
+}
+fn out_tag(o: &Out) -> String {
+    match o {
+        Out::Accept(..) => "accept".into(),
+        Out::Panic => "panic".into(),
+        Out::Unexpected(_) => "unexpected".into(),
+        Out::Reject(k, l) => {
+            let k = k.trim_start_matches('(').trim_end_matches(')');
+            let short = if k.starts_with("ChildSubintentNotIncluded") {
+                format!("NotIncluded:{}", k.split(' ').nth(1).unwrap())
+            } else {
+                match k {
+                    "DuplicateSubintent" => "Duplicate",
+                    "SubintentHasMultipleParents" => "MultipleParents",
+                    "SubintentExceedsMaxDepth" => "Exceeds",
+                    "SubintentIsNotReachable" => "NotReachable",
+                    "MismatchingYield" => "Yield",
+                    other => other,
+                }
+                .to_string()
+            };
+            match l {
+                Some((i, _)) => format!("{}@{}", short, i),
+                None => short,
+            }
+        }
+    }
+}
+/// (class name, tree, expected verdict) — every comparison of the modelled function on both sides and at equality
+fn boundary_family() -> Vec<(&'static str, Tree, &'static str)> {
+    let tx = || IH::Tx(800);
+    let sb = || IH::Sub(900);
+    let mut v: Vec<(&'static str, Tree, &'static str)> = vec![];
+    // empty / single / depth configuration (max_depth vs max_depth-1 for a subintent root)
+    v.push(("empty_tx", bt(tx(), 3, &[], &[]), "accept"));
+    v.push(("empty_partial", bt(sb(), 3, &[], &[]), "accept"));
+    v.push(("single_tx", bt(tx(), 3, &[1], &[(1, &[])]), "accept"));
+    v.push(("single_partial", bt(sb(), 3, &[1], &[(1, &[])]), "accept"));
+    v.push(("depth0_tx_no_subs", bt(tx(), 0, &[], &[]), "accept"));
+    v.push(("depth0_tx_one_sub", bt(tx(), 0, &[1], &[(1, &[])]), "Exceeds@0"));
+    v.push(("depth0_partial_underflow", bt(sb(), 0, &[], &[]), "panic"));
+    v.push(("depth1_partial_no_subs", bt(sb(), 1, &[], &[]), "accept"));
+    v.push(("depth1_partial_one_sub", bt(sb(), 1, &[1], &[(1, &[])]), "Exceeds@0"));
+    v.push(("depth2_partial_one_sub", bt(sb(), 2, &[1], &[(1, &[])]), "accept"));
+    v.push(("depth2_partial_chain2", bt(sb(), 2, &[1], &[(1, &[2]), (2, &[])]), "Exceeds@1"));
+    v.push(("depth1_tx_wide3", bt(tx(), 1, &[1, 2, 3], &[(1, &[]), (2, &[]), (3, &[])]), "accept"));
+    v.push(("depth1_tx_chain2", bt(tx(), 1, &[1], &[(1, &[2]), (2, &[])]), "Exceeds@1"));
+    v.push(("depth3_tx_chain3_at_limit", bt(tx(), 3, &[1], &[(1, &[2]), (2, &[3]), (3, &[])]), "accept"));
+    v.push(("depth3_tx_chain4_over", bt(tx(), 3, &[1], &[(1, &[2]), (2, &[4]), (4, &[5]), (5, &[])]), "Exceeds@3"));
+    v.push(("depth3_partial_chain2_at_limit", bt(sb(), 3, &[1], &[(1, &[2]), (2, &[])]), "accept"));
+    v.push(("depth3_partial_chain3_over", bt(sb(), 3, &[1], &[(1, &[2]), (2, &[4]), (4, &[])]), "Exceeds@2"));
+    v.push(("depth4_tx_chain4", bt(tx(), 4, &[1], &[(1, &[2]), (2, &[4]), (4, &[5]), (5, &[])]), "accept"));
+    // two too-deep branches: the work list is a stack (last root child first)
+    v.push(("two_deep_branches_lifo", bt(tx(), 1, &[1, 2], &[(1, &[4]), (2, &[5]), (4, &[]), (5, &[])]), "Exceeds@3"));
+    v.push(("deep_branch_first_child_only", bt(tx(), 1, &[1, 2], &[(1, &[4]), (2, &[]), (4, &[])]), "Exceeds@2"));
+    v.push(("children_listed_before_parents", bt(tx(), 3, &[1], &[(4, &[]), (2, &[4]), (1, &[2])]), "accept"));
+    v.push(("wide_and_deep", bt(tx(), 3, &[1, 2], &[(1, &[4, 5]), (2, &[7]), (4, &[8]), (5, &[]), (7, &[]), (8, &[])]), "accept"));
+    // STEP 1 duplicates: adjacent, first/last, with another defect present
+    v.push(("dup_adjacent", bt(tx(), 3, &[1], &[(1, &[]), (1, &[])]), "Duplicate@1"));
+    v.push(("dup_first_last", bt(tx(), 3, &[1, 2], &[(1, &[]), (2, &[]), (1, &[])]), "Duplicate@2"));
+    v.push(("dup_last_two", bt(tx(), 3, &[1, 2], &[(1, &[]), (2, &[]), (2, &[])]), "Duplicate@2"));
+    v.push(("dup_before_missing_child", bt(tx(), 3, &[9], &[(1, &[]), (1, &[])]), "Duplicate@1"));
+    // STEP 2A / 2B: missing child
+    v.push(("missing_root_child", bt(tx(), 3, &[5], &[(1, &[])]), "NotIncluded:5"));
+    v.push(("missing_root_child_second", bt(tx(), 3, &[1, 5], &[(1, &[])]), "NotIncluded:5"));
+    v.push(("missing_sub_child", bt(tx(), 3, &[1], &[(1, &[7])]), "NotIncluded:7"));
+    v.push(("missing_child_no_subs", bt(tx(), 3, &[5], &[]), "NotIncluded:5"));
+    v.push(("missing_before_multiple_parents", bt(tx(), 3, &[1], &[(1, &[7, 1])]), "NotIncluded:7"));
+    // multiple parents
+    v.push(("mp_root_declares_twice", bt(tx(), 3, &[1, 1], &[(1, &[])]), "MultipleParents@0"));
+    v.push(("mp_root_and_sub", bt(tx(), 3, &[1, 2], &[(1, &[2]), (2, &[])]), "MultipleParents@1"));
+    v.push(("mp_sub_and_sub", bt(tx(), 3, &[1, 2], &[(1, &[4]), (2, &[4]), (4, &[])]), "MultipleParents@2"));
+    v.push(("mp_self_child_with_parent", bt(tx(), 3, &[1], &[(1, &[1])]), "MultipleParents@0"));
+    v.push(("mp_dup_child_in_sub", bt(tx(), 3, &[1], &[(1, &[2, 2]), (2, &[])]), "MultipleParents@1"));
+    v.push(("mp_two_cycle_reachable", bt(tx(), 3, &[1], &[(1, &[2]), (2, &[1])]), "MultipleParents@0"));
+    v.push(("mp_partial_root_declares_twice", bt(sb(), 3, &[1, 1], &[(1, &[])]), "MultipleParents@0"));
+    v.push(("mp_before_missing", bt(tx(), 3, &[1], &[(1, &[1, 7])]), "MultipleParents@0"));
+    // STEP 4 unreachable
+    v.push(("orphan_single", bt(tx(), 3, &[], &[(1, &[])]), "NotReachable@0"));
+    v.push(("orphan_second", bt(tx(), 3, &[1], &[(1, &[]), (2, &[])]), "NotReachable@1"));
+    v.push(("island_self_loop", bt(tx(), 3, &[], &[(1, &[1])]), "NotReachable@0"));
+    v.push(("island_two_cycle", bt(tx(), 3, &[], &[(1, &[2]), (2, &[1])]), "NotReachable@0"));
+    v.push(("island_two_cycle_beside_tree", bt(tx(), 3, &[4], &[(4, &[]), (1, &[2]), (2, &[1])]), "NotReachable@1"));
+    v.push(("orphan_with_subtree", bt(tx(), 3, &[1], &[(1, &[]), (2, &[4]), (4, &[])]), "NotReachable@1"));
+    v.push(("orphan_subtree_listed_first", bt(tx(), 3, &[1], &[(2, &[4]), (4, &[]), (1, &[])]), "NotReachable@0"));
+    v.push(("island_cycle_with_tail", bt(tx(), 3, &[7], &[(7, &[]), (1, &[2]), (2, &[1, 4]), (4, &[])]), "NotReachable@1"));
+    v.push(("orphan_partial", bt(sb(), 3, &[], &[(1, &[])]), "NotReachable@0"));
+    // yields: equal at zero, parent > child, parent < child, root edge / sub edge, first of two mismatches, last index
+    v.push(("yield_all_zero", bt(tx(), 3, &[3], &[(3, &[6]), (6, &[])]), "accept"));
+    let mut t = bt(tx(), 3, &[1, 2], &[(1, &[]), (2, &[])]);
+    t.root.child_yields[0].1 += 1;
+    v.push(("yield_root_edge_parent_more", t, "Yield@0"));
+    let mut t = bt(tx(), 3, &[1, 2], &[(1, &[]), (2, &[])]);
+    t.subs[1].1.parent_yields += 1;
+    v.push(("yield_root_edge_child_more_last", t, "Yield@1"));
+    let mut t = bt(tx(), 3, &[1], &[(1, &[2]), (2, &[])]);
+    t.subs[0].1.child_yields[0].1 -= 1;
+    v.push(("yield_sub_edge_parent_less", t, "Yield@1"));
+    let mut t = bt(tx(), 3, &[1, 2], &[(1, &[]), (2, &[])]);
+    t.subs[0].1.parent_yields += 1;
+    t.subs[1].1.parent_yields += 1;
+    v.push(("yield_two_mismatches_first_reported", t, "Yield@0"));
+    let mut t = bt(sb(), 3, &[1], &[(1, &[])]);
+    t.root.parent_yields = 5; // the root's own parent yields are not compared with anything
+    v.push(("yield_partial_root_parent_yields_free", t, "accept"));
+    let mut t = bt(tx(), 3, &[3], &[(3, &[])]);
+    t.root.child_yields[0].1 = 1;
+    v.push(("yield_zero_vs_one", t, "Yield@0"));
+    // structure errors come before yield errors
+    let mut t = bt(tx(), 3, &[1], &[(1, &[]), (2, &[])]);
+    t.root.child_yields[0].1 += 1;
+    v.push(("unreachable_before_yield", t, "NotReachable@1"));
+    // the placeholder parent: IntentHash::Transaction(0) is "no parent yet"; Subintent(0) is not
+    v.push(("placeholder_root_single", bt(IH::Tx(0), 3, &[1], &[(1, &[])]), "accept"));
+    v.push(("placeholder_root_declares_twice", bt(IH::Tx(0), 3, &[1, 1], &[(1, &[])]), "accept"));
+    v.push(("placeholder_root_cycle_ends_by_depth", bt(IH::Tx(0), 3, &[1], &[(1, &[2]), (2, &[1])]), "Exceeds@1"));
+    v.push(("subintent_zero_root_declares_twice", bt(IH::Sub(0), 3, &[1, 1], &[(1, &[])]), "MultipleParents@0"));
+    v.push(("tx_one_root_declares_twice", bt(IH::Tx(1), 3, &[1, 1], &[(1, &[])]), "MultipleParents@0"));
+    v.push(("subintent_zero_as_parent", bt(tx(), 3, &[0, 7], &[(0, &[5]), (5, &[]), (7, &[5])]), "MultipleParents@1"));
+    v.push(("subintent_zero_leaf", bt(tx(), 3, &[0], &[(0, &[])]), "accept"));
+    // outside the hypotheses: root listed among the subintents, summary lacking a declared child
+    v.push(("root_collides_with_subintent", bt(IH::Sub(1), 3, &[1], &[(1, &[])]), "panic"));
+    let mut t = bt(tx(), 3, &[1], &[(1, &[])]);
+    t.root.child_yields.clear();
+    v.push(("summary_lacks_child", t, "panic"));
+    v
+}
+
 // ---- generator -------------------------------------------------------------------------------
 fn gen_tree(rng: &mut Rng, tags: &mut Vec<&'static str>) -> Tree {
     let n = match rng.below(10) {
@@ -579,11 +725,31 @@ fn main() {
     );
     let mut cw = CaseWriter::new("RV.Corr.C35_run RV.Model.C35_IntentTree", "check");
     let root = Rng::new(args.seed);
+    let family = boundary_family();
+    for (name, _, _) in family.iter() {
+        report.floor(&format!("b_{}", name), 1);
+    }
     for i in 0..args.cases {
         let mut rng = root.fork(i as u64);
         let mut tags = vec![];
-        let t = gen_tree(&mut rng, &mut tags);
+        let t = if i < family.len() {
+            tags.push("boundary_family");
+            family[i].1.clone()
+        } else {
+            gen_tree(&mut rng, &mut tags)
+        };
         let out = run_impl(&t);
+        if i < family.len() {
+            report.count(&format!("b_{}", family[i].0));
+            if out_tag(&out) != family[i].2 {
+                report.oracle_failure(
+                    i,
+                    "",
+                    &format!("boundary case {}: expected {} got {}", family[i].0, family[i].2, out_tag(&out)),
+                    tree_json(&t),
+                );
+            }
+        }
         let canon = tree_coq(&t);
         report.case(&canon, t.subs.len() >= 2);
         for tag in &tags {
